@@ -66,6 +66,9 @@ def _sc():
     S.append(('sem_timed', 'C02', 2, 'sem 0', [(0, 'sem_wait 0 1 100'), (1, 'tick 50;sem_signal 0 1')], [], ['']))
     S.append(('sem_timed_race', 'C02', 2, 'sem 0', [(0, 'sem_wait 0 1 100'), (0, 'sem_wait 0 1 -1'), (1, 'tick 100;sem_signal 0 1')], [], ['', '0!']))
     S.append(('sem_intr', 'C02', 3, 'sem 0', [(0, 'sem_wait 0 1 -1'), (0, 'sem_wait 0 1 -1'), (1, 'sem_signal 0 1'), (2, 'interrupt 0 4')], [], ['', '0!']))
+    # mixed demands WITHOUT a fast-path wait that could overtake a woken waiter (outside the class of F35): the head-rule applies
+    S.append(('sem_mixed_intr', 'C02', 3, 'sem 0', [(0, 'sem_wait 0 2 -1'), (0, 'sem_wait 0 1 -1'), (1, 'sem_signal 0 1'), (2, 'interrupt 0 4')], [], ['0!', '']))
+    S.append(('sem_mixed_timeout', 'C02', 2, 'sem 0', [(0, 'sem_wait 0 2 100'), (0, 'sem_wait 0 1 -1'), (1, 'sem_signal 0 1;tick 100')], [], ['0!', '']))
     # ---- C06 rwlock: reader / writer admission (no waiter leaves: outside the class of F38)
     RL, WL = 'rw_lock 0 0 -1;rw_unlock 0', 'rw_lock 0 1 -1;rw_unlock 0'
     S.append(('rw_rw', 'C06', 2, 'rwlock 1', [(0, RL), (1, WL)], [], ['']))
@@ -73,11 +76,19 @@ def _sc():
     S.append(('rw_wwr', 'C06', 3, 'rwlock 0', [(0, WL), (0, RL), (1, WL), (2, RL)], [], ['']))
     S.append(('rw_readers', 'C06', 2, 'rwlock 2', [(0, RL), (0, RL), (1, WL), (1, RL)], [], ['']))
     S.append(('rw_default_retries', 'C06', 2, 'rwlock 100', [(0, RL), (1, WL)], [], ['']))
+    S.append(('rw_hold_readers', 'C06', 3, 'rwlock 1', [(0, WL), (1, 'rw_lock 0 0 -1'), (2, 'rw_lock 0 0 -1')], [], ['']))
+    S.append(('rw_hold_readers_2v', 'C06', 2, 'rwlock 1', [(0, WL), (1, 'rw_lock 0 0 -1'), (1, 'rw_lock 0 0 -1'), (0, 'rw_lock 0 0 -1')], [], ['']))
+    S.append(('rw_hold_writer', 'C06', 3, 'rwlock 1', [(0, RL), (0, RL), (1, 'rw_lock 0 1 -1'), (2, 'rw_lock 0 0 -1')], [], ['']))
     S.append(('rw_timed', 'C06', 3, 'rwlock 1', [(0, 'rw_lock 0 0 -1;tick 100;rw_unlock 0'), (1, 'rw_lock 0 1 100;rw_unlock 0'), (2, RL)], [], ['']))
     return S
 
 
 SCENARIOS = _sc()
+# scenarios in which every thread must finish its script under EVERY schedule (all waits untimed or harmlessly timed, every lock
+# is released, every demand is covered): a thread still blocked at quiescence is a lost hand-off / wake-up / admission
+NO_BARGING = {'sem_mixed_intr', 'sem_mixed_timeout'}
+MUST_COMPLETE = {'mx_handoff', 'mx_late', 'mx_retry', 'mx_twice', 'mx_timed', 'mx_timed_race', 'mx_intr', 'sem_1w1s', 'sem_2w2s', 'sem_d2', 'sem_pingpong',
+                 'sem_timed', 'rw_rw', 'rw_rwr', 'rw_wwr', 'rw_readers', 'rw_default_retries', 'cv_all_vs_timeout'}
 
 
 def case_line(sc, sched):
@@ -92,7 +103,7 @@ class Run:
         self.case, self.out = case, out or ''
         self.prefix = ''
         self.ok = False
-        m = re.match(r'^(?:(HANG\(cpu\)|HANG|CRASH\(\w+\)|DEADLOCK|STEP-LIMIT|NONDET|BADCASE|INITFAIL|NOOUTPUT\(\w+\)|PIPEFAIL|CRASH\([^)]*\):?) ?)?(.*)$', self.out, re.S)
+        m = re.match(r'^(?:(HANG\(cpu\)|HANG|CRASH\(\w+\)|DEADLOCK|STEP-LIMIT|NONDET|BADCASE|INITFAIL|FORKFAIL|NOOUTPUT\(\w+\)|PIPEFAIL|CRASH\([^)]*\):?) ?)?(.*)$', self.out, re.S)
         self.prefix = m.group(1) or ''
         body = m.group(2)
         f = {}
@@ -270,6 +281,12 @@ def sem_oracle(run, si):
             cnt = int(m.group(1))
             if cnt != started - consumed:
                 out.append('semaphore %d: final count %d != initial %d + signalled - consumed = %d (ledger)' % (si, cnt, c0, started - consumed))
+            head = re.search(r'q=\[(\d+)', run.finq.get('s%d' % si, ''))
+            if len(demands) > 1 and getattr(run, 'scenario', None) in NO_BARGING and head:
+                for o in waits:
+                    if o['r'] is None and o['tid'] == int(head.group(1)) and cnt >= o['args'][1]:
+                        out.append('semaphore %d: at quiescence the HEAD waiter T%d is still blocked in wait(%d) although the count is %d (no resume pass after the previous head left); final state %s'
+                                   % (si, o['tid'], o['args'][1], cnt, run.finq.get('s%d' % si)))
             if len(demands) == 1:                        # F35 (barging) concerns mixed demands only
                 for o in waits:
                     if o['r'] is None and cnt >= o['args'][1]:
@@ -330,6 +347,15 @@ def cv_oracle(run, ci):
         m = errno_ok(run, o, o['args'][2])
         if m: out.append(m)
         mine = [(a, b) for t, a, b in mem if t == o['tid'] and a > o['s'] and (o['r'] is None or a < o['r'])]
+        # atomic release-and-wait: whoever acquires the waiter's mutex after the wait began finds the waiter already queued
+        mi = o['args'][1]
+        for x in run.ops.values():
+            if x['tid'] != o['tid'] and x['r'] is not None and x['r'] > o['s'] and (o['r'] is None or x['r'] < o['r']) and \
+               ((x['name'] in ('lock', 'try_lock') and x['args'][0] == mi and x['ret'] == 0) or (x['name'] == 'cv_wait' and x['args'][1] == mi and run.executed(x))):
+                if not mine or mine[0][0] > x['r']:
+                    out.append('cv_wait of T%d (op %d) had released its mutex %d (T%d acquired it, op %d) BEFORE it was linked into the wait queue: release-and-wait is not atomic'
+                               % (o['tid'], o['pc'], mi, x['tid'], x['pc']))
+                    break
         if o['r'] is None:
             continue
         if not mine or mine[0][1] is None or mine[0][1] > o['r']:
@@ -394,11 +420,12 @@ def rw_oracle(run, li, cov):
     return out
 
 
-def judge(run, cov):
+def judge(run, cov, scenario=None):
     """all oracles that apply to the objects of the case; returns {property: [messages]}"""
     res = {}
     if not run.ok:
         return res
+    run.scenario = scenario[0] if scenario else None
     if run.prefix in ('DEADLOCK', 'STEP-LIMIT') or run.prefix.startswith('CRASH(sig'):
         res['*'] = ['the run ended with %s (every vCPU waits for a spinlock / step bound / fatal signal)' % run.prefix]
     cvm = set()
@@ -418,6 +445,9 @@ def judge(run, cov):
         elif d[0] == 'rwlock':
             m = rw_oracle(run, i, cov)
             if m: res.setdefault('C06', []).extend(m)
+    if scenario and scenario[0] in MUST_COMPLETE and not run.prefix and run.blocked:
+        res.setdefault(scenario[1], []).append('scenario %s completes under every schedule, but at quiescence %s still blocked (%s); final state: %s' % (
+            scenario[0], ', '.join('T%d in op %d (%s)' % (t, pc, ' '.join(run.prog[t][1][pc])) for t, pc in run.blocked), 'lost wake-up / hand-off', run.f.get('fin', '').strip()))
     return res
 
 
@@ -426,8 +456,9 @@ def build():
     repo = vlib.REPO
     if 'LS_LOCK_WANT' not in open(os.path.join(repo, 'thread', 'thread.h')).read():
         return None, 'the tree %s lacks the guarded hook LS_LOCK_WANT in spinlock::lock() (%s): without it a vCPU spinning on a lock held by a descheduled vCPU cannot be descheduled' % (repo, HOOK_PATCH)
+    # one executable per calling process: several checks (C01, C02, C03, C06) may run this engine at the same time
     return vlib.cxx_build('E4S', ['harness/E4S/e4s.cpp'], extra='-I%s -I%s' % (repo, os.path.join(vlib.VERIF, 'harness', 'E4S')), libphoton=True,
-                          out=os.path.join(vlib.BUILD, 'bin', 'E4S_impl'))
+                          out=os.path.join(vlib.BUILD, 'bin', 'E4S_impl_%d' % os.getpid()))
 
 
 def _sched_strings(sc, n, seed, k):
@@ -447,20 +478,32 @@ def _sched_strings(sc, n, seed, k):
     return out
 
 
-def run(props, tier='quick', seed=1, budget_s=None, scenarios=None):
+def run(props, tier='quick', seed=1, budget_s=None, scenarios=None, exe=None):
     """returns (violations, coverage) for the properties in `props` (subset of {'C01','C02','C03','C06'})"""
     props = set(props)
     t0 = time.time()
-    exe, log = build()
+    own = not exe
+    exe, log = (exe, '') if exe else build()
     if not exe:
         return [dict(kind='build', message='E4S harness does not build against the tree: ' + log[-1500:], case=None)], {}
+    tmp = os.path.join(vlib.BUILD, 'run', 'E4S_%d' % os.getpid())
+    try:
+        return _run(props, tier, seed, budget_s, scenarios, exe, tmp, t0)
+    finally:
+        import shutil
+        shutil.rmtree(tmp, ignore_errors=True)
+        if own:
+            try: os.remove(exe)
+            except OSError: pass
+
+
+def _run(props, tier, seed, budget_s, scenarios, exe, tmp, t0):
     scs = [s for s in SCENARIOS if s[1] in props and (scenarios is None or s[0] in scenarios)]
     if not scs:
         return [], {}
-    tmp = os.path.join(vlib.BUILD, 'run', 'E4S_%d' % os.getpid())
     env = dict(os.environ, E4S_TWICE_PCT='5')
     cov = {}
-    budget = budget_s or (45 if tier == 'quick' else 600) * max(1, len(props)) ** 0.5
+    budget = budget_s or (20 if tier == 'quick' else 240) * max(1, len(props))      # search time; the build adds ~10-15 s
     # stage 1: hand-written schedules + calibration (number of decisions per scenario, throughput)
     cases1, meta1 = [], []
     for sc in scs:
@@ -475,21 +518,32 @@ def run(props, tier='quick', seed=1, budget_s=None, scenarios=None):
     kdec = {}
     for (sc, kind), r in runs:
         if r.ok: kdec[sc[0]] = max(kdec.get(sc[0], 8), len(r.sched))
-    rate = len(cases1) / dt                                            # cases per second with all shards busy (pessimistic: few cases per shard)
-    remaining = max(5.0, budget - (time.time() - t0))
-    per = int(min(4000 if tier == 'quick' else 40000, max(150, rate * remaining / len(scs))))
-    cases2, meta2 = [], []
-    for sc in scs:
-        for spec in _sched_strings(sc, per, seed, kdec.get(sc[0], 60)):
-            cases2.append(case_line(sc, spec)); meta2.append((sc, 'search'))
-    outs2 = vlib.run_cases(exe, cases2, tmp, 's2', timeout=max(600, int(budget * 4)), env=env)
-    runs += [(m, Run(c, o)) for m, c, o in zip(meta2, cases2, outs2)]
+    # stage 2: seeded schedules in rounds (every scenario in every round) until the time budget is used up: the number of runs adapts
+    # to the machine (process start-up dominates a run: ~10 ms idle, 10x that on a loaded machine), the budget is kept
+    rate = len(cases1) / dt
+    cap = (4000 if tier == 'quick' else 40000) * len(scs)
+    done2 = 0; rnd = 0
+    def strings(sc, lo, n):
+        return _sched_strings(sc, lo + n, seed, kdec.get(sc[0], 60))[lo:]
+    while done2 < cap:
+        remaining = budget - (time.time() - t0)
+        if rnd > 0 and remaining < 3: break
+        per = int(max(8 if rnd else 25, min(cap // len(scs) - done2 // len(scs), rate * max(remaining, 3.0) * (0.45 if rnd == 0 else 0.7) / len(scs))))
+        cases2, meta2 = [], []
+        for sc in scs:
+            for spec in strings(sc, done2 // len(scs), per):
+                cases2.append(case_line(sc, spec)); meta2.append((sc, 'search'))
+        ta = time.time()
+        outs2 = vlib.run_cases(exe, cases2, tmp, 's2_%d' % rnd, timeout=max(600, int(budget * 4)), env=env)
+        rate = len(cases2) / max(0.05, time.time() - ta)
+        runs += [(m, Run(c, o)) for m, c, o in zip(meta2, cases2, outs2)]
+        done2 += per * len(scs); rnd += 1
 
     # judge
     fails = {}          # (prop, scenario) -> list of (run, messages)
     nbad = 0; ninfra = 0; nint = 0; per_sc = {}; distinct = set()
     for (sc, kind), r in runs:
-        st = per_sc.setdefault(sc[0], dict(runs=0, distinct_schedules=set(), blocked_at_end=0))
+        st = per_sc.setdefault(sc[0], dict(runs=0, distinct_schedules=set(), blocked_at_end=0, with_sleeper=0, with_timeout=0))
         if not r.ok or r.prefix in ('HANG', 'NONDET') or r.prefix.startswith('CRASH(') and not r.prefix.startswith('CRASH(sig') or r.prefix.startswith('NOOUTPUT'):
             ninfra += 1
             if r.prefix in ('HANG', 'HANG(cpu)', 'NONDET') or r.prefix.startswith('CRASH'):
@@ -497,8 +551,10 @@ def run(props, tier='quick', seed=1, budget_s=None, scenarios=None):
             continue
         st['runs'] += 1; st['distinct_schedules'].add(r.sched)
         if r.blocked: st['blocked_at_end'] += 1
+        if any(e[0] == 'Q+' for e in r.events): st['with_sleeper'] += 1
+        if any(e[0] == 'X' for e in r.events): st['with_timeout'] += 1
         if 'INFEASIBLE' in r.note: nint += 1
-        j = judge(r, cov)
+        j = judge(r, cov, sc)
         for p, msgs in j.items():
             if p == '*' or p in props or True:
                 fails.setdefault((p, sc[0]), []).append((r, msgs))
@@ -525,7 +581,8 @@ def run(props, tier='quick', seed=1, budget_s=None, scenarios=None):
                                            model_out='every schedule of the scenario runs to quiescence', impl_out=(o[0] or '')[:3000]))
                     done = True; break
                 unrepro += 1; continue
-            j2, j3 = judge(r2, {}), judge(r3, {})
+            sc_ = [s_ for s_ in SCENARIOS if s_[0] == scn][0]
+            j2, j3 = judge(r2, {}, sc_), judge(r3, {}, sc_)
             if r2.f.get('ev') != r3.f.get('ev') or p not in j2 or p not in j3:
                 unrepro += 1; continue
             msg = j2[p][0]
@@ -542,8 +599,8 @@ def run(props, tier='quick', seed=1, budget_s=None, scenarios=None):
         if p == '*' or p in props:
             v['property_hint'] = p
             out.append(v)
-    cov.update(e4s_runs=sum(s['runs'] for s in per_sc.values()), e4s_infrastructure_failures=ninfra, e4s_unreproduced=unrepro, e4s_infeasible_prefixes=nint,
-               e4s_scenarios={k: dict(runs=v['runs'], distinct_schedules=len(v['distinct_schedules']), blocked_at_end=v['blocked_at_end'], decisions=kdec.get(k)) for k, v in per_sc.items()},
+    cov.update(e4s_after_release_points='LS_LOCK_FREE' in open(os.path.join(vlib.REPO, 'thread', 'thread.h')).read(), e4s_runs=sum(s['runs'] for s in per_sc.values()), e4s_infrastructure_failures=ninfra, e4s_unreproduced=unrepro, e4s_infeasible_prefixes=nint,
+               e4s_scenarios={k: dict(runs=v['runs'], distinct_schedules=len(v['distinct_schedules']), blocked_at_end=v['blocked_at_end'], runs_in_which_a_thread_slept_in_a_wait_queue=v['with_sleeper'], runs_with_an_expired_sleep=v['with_timeout'], decisions=kdec.get(k)) for k, v in per_sc.items()},
                e4s_oracle_failures={'%s/%s' % k: len(v) for k, v in fails.items()}, e4s_wall_s=round(time.time() - t0, 1))
     return out, cov
 
